@@ -501,10 +501,23 @@ def check_c11(seed, tier):
                         pos += w
                     if not ok:
                         viol.append({"case": {"cfg": cfg, "rpc": rpc}, "what": f"open pass reads {[(r[2], r[3]) for r in reads]} != sequential {want_sizes}"})
-                    da = t["imagery/HH/data"]
+                    # the same bounds hold for loads through COPIES of the tree (pickled, deep-copied): a copy reads like the original
+                    import copy as _copy
+                    import pickle as _pickle
+                    das = {"original": t["imagery/HH/data"]}
+                    for how, mk in (("pickled tree", lambda: _pickle.loads(_pickle.dumps(t))["imagery/HH/data"]),
+                                    ("deep-copied tree", lambda: _copy.deepcopy(t)["imagery/HH/data"]),
+                                    ("tree.copy(deep=True)", lambda: t.copy(deep=True)["imagery/HH/data"]),
+                                    ("pickled data array", lambda: _pickle.loads(_pickle.dumps(t["imagery/HH/data"])))):
+                        try:
+                            das[how] = mk()
+                        except Exception as e:  # noqa: BLE001
+                            viol.append({"case": {"cfg": cfg, "rpc": rpc, "copy": how}, "what": f"copying the opened tree failed: {type(e).__name__}: {e}"[:200]})
                     space = index_space(n, m, rng, "quick")
                     space = [ix for ix in space if not any(isinstance(v, np.ndarray) and v.size == 0 for v in ix.values())]
-                    for ix in rng.sample(space, min(len(space), 40 if tier == "quick" else 200)):
+                    for k_ix, ix in enumerate(rng.sample(space, min(len(space), 40 if tier == "quick" else 200))):
+                        how = list(das)[k_ix % len(das)]
+                        da = das[how]
                         del TFS.events[:]
                         try:
                             sel = da.isel(**ix)
@@ -519,7 +532,7 @@ def check_c11(seed, tier):
                         # selected line span
                         rows = np.arange(n)[ix["rows"]] if "rows" in ix else np.arange(n)
                         rows = np.atleast_1d(rows)
-                        case = {"cfg": cfg, "rpc": rpc, "isel": _describe(ix)}
+                        case = {"cfg": cfg, "rpc": rpc, "isel": _describe(ix), "loaded_through": how}
                         if others:
                             viol.append({"case": case, "what": f"other files touched while loading pixels: {others[:3]}"})
                         if rows.size == 0:
